@@ -89,6 +89,14 @@ fn check_one(re: &Regex, names: &[Option<String>], texts: &[String], pat: &str, 
                 }
             }
         }
+        for (i, n) in names.iter().enumerate() {
+            if let (Some(n), Some(m)) = (n, c.get(i)) {
+                // the Index impls must agree with get / name (and not panic for a matched group)
+                if &c[n.as_str()] != m.as_str() || &c[i] != m.as_str() {
+                    bad(acc, &format!("Index<&str> / Index<usize> for {:?}", n), t, format!("{:?}", m.as_str()), format!("{:?} / {:?}", &c[n.as_str()], &c[i]));
+                }
+            }
+        }
         if c.name("no_such_group").is_some() {
             bad(acc, "Captures::name(no_such_group)", t, "None".into(), "Some".into());
         }
